@@ -54,7 +54,7 @@ def sessions_for(tier, seed):
         for tscf in (False, True):
             for fd in (False, True):
                 fr = frames_for(rng, fd, quick)
-                counts = [1, 2, 3, 5] + ([] if quick else [4, 7, 18 if fd else 61])
+                counts = [1, 2, 3, 5, 11] + ([] if quick else [4, 7, 18 if fd else 61])
                 for c in counts:
                     use = fr if c == 1 else fr[:]
                     if c > 1:
